@@ -486,6 +486,10 @@ def run(rep, tier):
         raise AnalysisBroken('writeFSMEnterStates: the parallel-completion check (STATES_AND_NOT on tmp_states) was not found')
     rep.check(not reads_cfg, 'R06.11', 'writeFSMEnterStates|done.state of a parallel', 'src/uscxml/transform/ChartToPromela.cpp:%s' % hit11[0][1],
               'the emitted check "all regions of the parallel are final" %s' % ('reads a complete configuration' if not reads_cfg else 'reads ctx.config inside the loop that is still entering states (same template as the generated C): regions later in document order do not count yet, done.state.<parallel> can be raised although a later region never becomes final'))
+    # ---- R06.18 same block: an active final state stands for its parent only
+    rep.rule('R06.18', 'done.state of a parallel is raised when every region is in a final state of its own: in the emitted check an active final state clears its parent, not all of its ancestors (same clause as C04 R04.18 / C03 R03.16)')
+    rep.check(not hit11, 'R06.18', 'writeFSMEnterStates|a final child vouches for all its ancestors', 'src/uscxml/transform/ChartToPromela.cpp:%s' % (hit11[0][1] if hit11 else ls11[0][1]),
+              'an active final state %s' % ('clears its parent only' if not hit11 else 'clears ALL its ancestors from ctx.tmp_states (STATES_AND_NOT(tmp_states, states[k].ancestors)): a final nested below a region\'s child finishes the region, done.state.<parallel> is queued although the region is in no final state of its own'))
     # ---- R06.10
     time_advances(rep, fb, 'R06.10')
     # ---- R06.9
@@ -496,6 +500,10 @@ def run(rep, tier):
     unique_names(rep, facts.FactBase(TUS + ['src/uscxml/transform/promela/PromelaCodeAnalyzer.cpp']), 'R06.7')
     # ---- R06.12
     sendid_ranges(rep, fb, 'R06.12')
+    # ---- R06.15 / R06.16
+    embedded_expressions(rep, fb, 'R06.15')
+    all_of_kind_tests(rep, fb, per_writer, 'R06.16')
+    state_ids_resolve(rep, facts.FactBase(TUS + ['src/uscxml/transform/promela/PromelaCodeAnalyzer.cpp']), 'R06.17')
 
 
 def sendid_ranges(rep, fb, rule='R06.12'):
@@ -557,3 +565,118 @@ def sendid_ranges(rep, fb, rule='R06.12'):
         dep = any(y.get('callee', {}).get('q', '').endswith(SRC) or (y['k'] == 'DeclRefExpr' and y.get('ref', {}).get('lid') in tainted) for y in sub(top))
         rep.check(dep, rule, '%s|_lastSendId = %s' % (f.q.split('::')[-1], rhs), locstr(n), 'the start value %s %s' % (
             rhs, 'is computed from the indices of the literals' if dep else 'does NOT depend on the indices of the literals'))
+
+
+def embedded_expressions(rep, fb, rule='R06.15'):
+    """a chart expression written into a larger emitted expression is parenthesised"""
+    rep.rule(rule, 'the text of a chart expression keeps its meaning in the emitted model: where the writer appends an adapted chart expression (cond, expr) to an emitted operator, it is wrapped in parentheses - `x && a == 1 || b == 1` is not `x && (a == 1 || b == 1)`')
+    OPS = ('&&', '||', '==', '!=', '<=', '>=', '+', '-', '*', '/', '%', '<', '>', '!')
+    n_sites = 0
+    n_seen = 0
+    for f in fb.funcs.values():
+        if not f.q.startswith('uscxml::ChartToPromela::'):
+            continue
+        for n in f.walk():
+            if n['k'] != 'CXXOperatorCallExpr' or n.get('op') != '<<':
+                continue
+            par = f.parent(n)
+            while par is not None and par['k'] in facts.TRANSPARENT:
+                par = f.parent(par)
+            if par is not None and par['k'] == 'CXXOperatorCallExpr' and par.get('op') == '<<' and strip(par['c'][1]) is n:
+                continue     # not the top of the chain
+            ops = []
+            tpl.flatten(n, ops)
+            for k, o in enumerate(ops):
+                if not any(y.get('callee', {}).get('q', '').endswith('::adaptCode') for y in sub(o)):
+                    continue
+                n_seen += 1
+                prev = ops[k - 1] if k > 0 else None
+                pl = prev.get('str') if prev is not None and prev['k'] == 'StringLiteral' else None
+                if pl is None:
+                    continue
+                tail = pl.rstrip()
+                if tail.endswith('(') or not tail.endswith(OPS):
+                    continue      # already opened, or not an operand position (assignment, argument, start of a statement)
+                if tail.endswith('=') and not tail.endswith(('==', '!=', '<=', '>=')):
+                    continue
+                n_sites += 1
+                rep.fail(rule, '%s|%s' % (f.q.split('::')[-1], ' '.join(tail.split())[-12:]), locstr(o),
+                         'the chart expression `%s` is appended to the emitted operator `%s` without parentheses: a cond "a == 1 || b == 1" turns the guard into (i == n && event matches && a == 1) || b == 1, true for every event and every transition index' % (
+                             ' '.join(fb.text(o).split())[:60], tail[-4:].strip()))
+    rep.minimum(rule, n_seen, 8, 'adapted chart expressions written into the model by ChartToPromela')
+    rep.ok(rule, 'writers', '%d adapted chart expressions examined, in operand position without parentheses: %d' % (n_seen, n_sites))
+
+
+def all_of_kind_tests(rep, fbc, ls_by_writer, rule='R06.16'):
+    """where the C template asks for ALL of several type bits (`type == (A | B)`), the Promela guard naming the same bits of one state joins
+    them with && (a bit array has no mask comparison)"""
+    rep.rule(rule, 'kind tests ask the same question in both templates: a test for all of several type bits in the emitted C (`type == (A | B)`, like FastMicroStep) is a conjunction of those bits in the emitted Promela, not a disjunction (shallow history over a child with a history of its own)')
+    pairs = set()
+    for f in fbc.funcs.values():
+        if f.q.startswith('uscxml::ChartToC::'):
+            for n in f.walk():
+                if n['k'] == 'StringLiteral' and isinstance(n.get('str'), str):
+                    for m in re.finditer(r'\.type\s*==\s*\(\s*(USCXML_STATE_\w+)\s*\|\s*(USCXML_STATE_\w+)\s*\)', n['str']):
+                        pairs.add(frozenset(m.groups()))
+    rep.minimum(rule, len(pairs), 1, '`type == (A | B)` tests in the C template')
+    found = 0
+    for w, (f, t, ls) in ls_by_writer.items():
+        for idx in range(len(ls) - 1):
+            two = ls[idx][0].rstrip() + ' ' + ls[idx + 1][0].strip()
+            for pr in pairs:
+                a, b = sorted(pr)
+                m = re.search(r'states\[(\w+)\]\.type\[(%s|%s)\]\s*(&&|\|\|)\s*states\[(\w+)\]\.type\[(%s|%s)\]' % (a, b, a, b), two)
+                if not m or m.group(1) != m.group(4) or m.group(2) == m.group(5):
+                    continue
+                found += 1
+                rep.check(m.group(3) == '&&', rule, '%s|%s' % (w, '+'.join(x[13:] for x in (a, b))), 'src/uscxml/transform/ChartToPromela.cpp:%s' % ls[idx][1],
+                          'the emitted guard joins %s and %s of one state with `%s`; the C template and the fast engine ask for both%s' % (a[13:], b[13:], m.group(3),
+                          '' if m.group(3) == '&&' else ': with || the nested-history block also runs for a SHALLOW history whose restored child has a history of its own, and that child is re-entered from its record instead of its default'))
+    rep.minimum(rule, found, 1, 'Promela guards naming both bits of such a pair on one state')
+
+
+def state_ids_resolve(rep, fb, rule='R06.17'):
+    """In() is written config[<state id>] in chart expressions; adaptCode only prefixes identifiers, the state index macros are upper-cased
+    and mangled: the id as written needs a definition of its own and must not be declared as a variable"""
+    rep.rule(rule, 'a state named in a chart expression is that state: identifiers of adapted code are prefixed as written while the index macro of a state is the mangled, upper-cased id, so the writer defines the index under the id as written too (or adaptCode maps state ids to their macro) and does not declare a state id as an implicit variable (an undeclared `hidden int` reads as 0, the root, which is always active)')
+    ws = fb.fn('uscxml::ChartToPromela::writeStrings')
+    ac = fb.fn('uscxml::PromelaCodeAnalyzer::adaptCode', required=False)
+    maps_in_adapt = ac is not None and any(y.get('callee', {}).get('q', '').endswith(('::macroForLiteral', '::createMacroName')) for y in ac.walk())
+    mangled = plain = 0
+    for n in ws.walk():
+        if n['k'] != 'CXXOperatorCallExpr' or n.get('op') != '<<':
+            continue
+        par = ws.parent(n)
+        while par is not None and par['k'] in facts.TRANSPARENT:
+            par = ws.parent(par)
+        if par is not None and par['k'] == 'CXXOperatorCallExpr' and par.get('op') == '<<' and strip(par['c'][1]) is n:
+            continue
+        ops = []
+        tpl.flatten(n, ops)
+        if not ops or not any(o['k'] == 'StringLiteral' and (o.get('str') or '').startswith('#define') for o in ops[:2]):
+            continue
+        if not any(a['k'] in ('ForStmt', 'CXXForRangeStmt') and any(y['k'] == 'MemberExpr' and y.get('ref', {}).get('name') == '_states' for y in sub(a)) for a in ws.ancestors(n)):
+            continue
+        name_ops = [o for o in ops[1:4] if o['k'] != 'StringLiteral' and not (o['k'] == 'MemberExpr' and o.get('ref', {}).get('name') == '_prefix')]
+        if not name_ops:
+            continue
+        o = name_ops[0]
+        defs = {d_['lid']: d_.get('init') for s_ in ws.walk() if s_['k'] == 'DeclStmt' for d_ in s_.get('decls', []) if 'lid' in d_}
+        nodes = list(sub(o))
+        for y in list(nodes):
+            if y['k'] == 'DeclRefExpr' and y.get('ref', {}).get('lid') in defs and isinstance(defs[y['ref']['lid']], dict):
+                nodes += list(sub(defs[y['ref']['lid']]))
+        if any(y.get('callee', {}).get('q', '').endswith('::macroForLiteral') for y in nodes):
+            mangled += 1
+        else:
+            plain += 1
+    rep.minimum(rule, mangled, 1, 'definitions of a state index under the mangled id in writeStrings')
+    rep.check(plain > 0 or maps_in_adapt, rule, 'writeStrings|state id as written', ws.where(), 'the index of a state is defined under its mangled macro name (%d site) and %s' % (
+        mangled, 'under the id as written as well' if plain else ('adaptCode maps state ids' if maps_in_adapt else
+        'NOT under the id as written, and adaptCode does not map it: cond="config[b2]" becomes ROOT_config[ROOT_b2] with an implicit `hidden int ROOT_b2` = 0 - the root, always active - unless the id happens to be upper case')))
+    wv = fb.fn('uscxml::ChartToPromela::writeVariables')
+    skips = [a for a in wv.walk() if a['k'] in ('ForStmt', 'CXXForRangeStmt', 'CallExpr', 'CXXMemberCallExpr') and any(
+        y['k'] == 'MemberExpr' and y.get('ref', {}).get('name') == '_states' for y in sub(a)) and any(
+        lp['k'] == 'WhileStmt' and any(z.get('ref', {}).get('name') == 'typeIter' or 'typeIter' in (fb.text(z) if z['k'] == 'DeclRefExpr' else '') for z in sub(lp['c'][0])) for lp in wv.ancestors(a))]
+    rep.check(bool(skips) or maps_in_adapt, rule, 'writeVariables|state ids are no variables', wv.where(), 'the loop that declares implicit variables %s' % (
+        'looks the identifier up among the state ids' if skips else 'never looks at the state ids: a state id used in config[..] is declared `hidden int`'))
